@@ -190,6 +190,14 @@ func c12Gen(g *core.Gen) {
 		g.Emit(&c12Case{Kind: "partition", Len: l, D: 3, P: 2, GLo: 1, GHi: 41})
 		g.Emit(&c12Case{Kind: "partition", Len: l, D: 2, P: 2, GLo: 4090, GHi: 4100})
 	}
+	// many input rows x long shards (working sets beyond cache sizes: any blocking / tiling of the single- and
+	// multi-goroutine paths must agree): every row count 1..40 at 64 KiB, 60..130 at 4 KiB
+	for d := 1; d <= 40; d++ {
+		g.Emit(&c12Case{Kind: "partition", Len: 65536, D: d, P: 1, GLo: 1, GHi: 4})
+	}
+	for d := 60; d <= 130; d++ {
+		g.Emit(&c12Case{Kind: "partition", Len: 4096, D: d, P: 1, GLo: 1, GHi: 4})
+	}
 	for gg := 1; gg <= 12; gg++ {
 		g.Emit(&c12Case{Kind: "par2g", G: gg})
 		g.Emit(&c12Case{Kind: "par2g", G: gg, NoSSSE3: true})
@@ -280,7 +288,7 @@ func init() {
 		ID:      "C12",
 		AltArch: true, // the alternate binary here is the -race build
 		Level:   "model_checking",
-		Rule: "(i) partition arithmetic, full product through the real GenerateParity/ReconstructData: every even shard length 2..600 (+1024..65550) x goroutine count 1..40 (and > number of 16-byte units) x codes (2,2),(3,2), and every even length 2..200 x g 1..16 x codes (6,5),(9,8) (several missing rows per goroutine), compared with g=1; the (3,2) code also with every input shard displaced to an odd address inside a larger buffer; " +
+		Rule: "(i) partition arithmetic, full product through the real GenerateParity/ReconstructData: every even shard length 2..600 (+1024..65550) x goroutine count 1..40 (and > number of 16-byte units) x codes (2,2),(3,2), and every even length 2..200 x g 1..16 x codes (6,5),(9,8) (several missing rows per goroutine), compared with g=1; every row count 1..40 x 64 KiB shards and 60..130 x 4 KiB shards x g 1..3; the (3,2) code also with every input shard displaced to an odd address inside a larger buffer; " +
 			"(ii) controlled-scheduler exploration of the real worker goroutines (sources instrumented from the current tree and injected with go build -overlay): for encode and reconstruct configurations (workers x kernel calls), EVERY interleaving at kernel-call/synchronisation granularity (unbounded), and every interleaving with <=2 (thorough 3) preemptions at statement granularity; per execution: output == single-goroutine bytes, recorded kernel access sets of different workers conflict-free, no deadlock; " +
 			"(iii) Create / Repair through par2 for g in 1..12 byte-identical to g=1; (iv) the same bodies free-running under the race detector (separate -race build, GOMAXPROCS 1,2,4,16). non-trivial = executions with >=2 runnable threads at some choice point / g>1 cases",
 		Assumptions: []string{"the controlled scheduler is sequentially consistent; weak-memory effects are covered only by the race-detector pass (no race => SC)", "scheduling points: spawn, exit, WaitGroup/Mutex operations, kernel calls, and (statement granularity) every statement of the instrumented files"},
